@@ -373,3 +373,71 @@ def eval_slurm_states(ctx, n_ids, accounting):
     except (Raised, Unsupported) as exc:
         return None, f"{exc}", sacct_queries, squeue_calls, m
     return res, None, sacct_queries, squeue_calls, m
+
+
+HASH_HOOKS = {
+    "hashlib.sha1": lambda data=b"", *a, **k: Obj("sha", data=data),
+    "hashlib.sha256": lambda data=b"", *a, **k: Obj("sha", data=data),
+    "hashlib.md5": lambda data=b"", *a, **k: Obj("sha", data=data),
+    "attr:hexdigest": lambda recv, *a: "H:" + repr(getattr(recv, "data", None)),
+}
+
+
+def eval_spec_store(ctx):
+    """Scenario evaluation of FileSpecHashes.has_changed / update / invalidate and hash_spec; returns [(step, got, expected-description, ok)]."""
+    idx = ctx.index
+    ci = idx.cls("gwf.core:FileSpecHashes")
+    attrs = {"path": PROJ + "/.gwf/spec-hashes.json", "hashes": {}, "__class__": ci}
+    for name, _ann, value in ci.fields:
+        if isinstance(value, ast.Call):
+            for k in value.keywords:
+                if k.arg == "default" and isinstance(k.value, ast.Constant):
+                    attrs.setdefault(name, k.value.value)
+    store = Obj("store", **attrs)
+    interp = PureInterp(ctx, hooks=dict(HASH_HOOKS))
+    T = Obj("target", name="T", spec="echo one")
+    U = Obj("target", name="U", spec="echo one")
+    steps = []
+
+    def call(meth, target):
+        try:
+            return interp.call(idx.method(ci, meth), (target,), {}, self_obj=store)
+        except Raised as exc:
+            return f"<raises {exc.kind}>"
+        except Unsupported as exc:
+            return f"<{exc}>"
+
+    def step(name, got, ok, want):
+        steps.append((name, got, want, ok))
+
+    g = call("has_changed", T); step("never recorded target", g, g is not None and not str(g).startswith("<"), "changed (not None)")
+    g = call("update", T); step("update(T)", g, g is None, "no error")
+    g = call("has_changed", T); step("T right after update(T)", g, g is None, "unchanged (None)")
+    g = call("has_changed", U); step("other target U with the same spec, never recorded", g, g is not None and not str(g).startswith("<"), "changed (records are per target name)")
+    T.spec = "echo two"
+    g = call("has_changed", T); step("T after its spec was edited", g, g is not None and not str(g).startswith("<"), "changed (not None)")
+    g = call("update", T); g = call("has_changed", T); step("T after update with the edited spec", g, g is None, "unchanged (None)")
+    g = call("invalidate", T); step("invalidate(T)", g, g is None, "no error")
+    g = call("has_changed", T); step("T after invalidate(T)", g, g is not None and not str(g).startswith("<"), "changed (record erased)")
+    g = call("invalidate", T); step("invalidate(T) again (no record)", g, g is None, "no error")
+    hs = idx.func("gwf.core:hash_spec")
+    try:
+        h1, h2, h1b = (interp.call(hs, (s_,)) for s_ in ("a", "b", "a"))
+        step("hash_spec('a') vs hash_spec('b')", (h1, h2), h1 != h2 and h1 == h1b and isinstance(h1, str), "different specs get different, reproducible values")
+    except (Raised, Unsupported) as exc:
+        step("hash_spec", f"<{exc}>", False, "evaluable content hash")
+    return steps, ci
+
+
+def eval_get_spec_hashes(ctx):
+    fn = ctx.index.func("gwf.core:get_spec_hashes")
+    out = {}
+    for flag in (True, False, None):
+        cfg = Obj("config")
+        interp = PureInterp(ctx, hooks={"attr:get": lambda recv, key, default=None, flag=flag: (flag if key == "use_spec_hashes" else default)})
+        try:
+            res = interp.call(fn, (), {"working_dir": tok("WD"), "config": cfg})
+            out[flag] = (res._name, tuple(res.__dict__["_attrs"].get("_args", ())) + tuple(res.__dict__["_attrs"].get("_kwargs", {}).values())) if isinstance(res, Obj) else res
+        except (Raised, Unsupported) as exc:
+            out[flag] = f"<{exc}>"
+    return out, fn
